@@ -102,6 +102,11 @@ def _value(n, internal_shape, as_list=False):
     return [f"v{n}", n, ("t", n), None, {"k": n}][n % 5] if n % 7 else f"v{n}"
 
 
+class _Unserialisable:
+    def __reduce__(self):
+        raise OSError(28, "No space left on device")
+
+
 def _rand_key(rng, sizes, wrong_rank_p=0.08, slice_p=0.3):
     n = len(sizes)
     if rng.random() < wrong_rank_p:
@@ -176,6 +181,10 @@ def _cases_class(tier, rng):
                        ("get", tuple(rng.randrange(d) for d in fs)), ("get_from_index", 0)]
                 for backend in BACKENDS:
                     yield {"backend": backend, "shape": shape, "internal": internal, "mask": mask, "ops": ops}
+        # ... and a failed dump onto a written element (int key, and a slice key covering it) leaves it as it was
+        for fk in (k, tuple(slice(None) for _ in shape)):
+            yield {"backend": "file_array", "shape": shape, "internal": internal, "mask": mask,
+                   "ops": [("dump", k, 13), ("dump-fail", fk), ("get", tuple(rng.randrange(d) for d in fs)), ("to_array",)]}
 
 
 def _check_class(case):
@@ -199,6 +208,17 @@ def _check_class(case):
             if kind == "reopen":
                 arr.persist()
                 arr = make()
+                continue
+            if kind == "dump-fail":
+                # a dump that fails while the value is serialised (no space left, an unpicklable value) is not a write:
+                # what was stored before is still there (file backend; the dict backends do not serialise on dump)
+                if case["backend"] == "file_array":
+                    try:
+                        arr.dump(op[1], _Unserialisable())
+                        bad.append(f"dump-fail: step {step}: the dump of a value that cannot be serialised did not raise")
+                        break
+                    except Exception:  # noqa: BLE001
+                        pass
                 continue
 
             def run(target, is_ref):
